@@ -303,7 +303,9 @@ def search_cases(rng, n, maxcmds=8):
 
 CHANGES = [b"x", b"3x", b"X", b"dd", b"2dd", b"dw", b"d2w", b"2dw", b"de", b"d$", b"D", b"cwNEW\x1b", b"c2wa b\x1b", b"ccline\x1b", b"ifoo \x1b", b"abar\x1b", b"Aend\x1b", b"I> \x1b",
            b"onew line\x1b", b"Oabove\x1b", b"ia\nb\x1b", "iéé中\x1b".encode(), b"p", b"P", b"2p", b"J", b"3J", b"rZ", b"2rq", b"~", b"4~", b">>", b"<<", b">j", b"sXY\x1b", b"Sall\x1b",
-           b"Cend\x1b", b"\"add", b"\"ayw", b"\"ap", b"\"Add", b"yw", b"yy", b"Y", b"g~w", b"gUw", b"guu"[:2] + b"w", b"dfo", b"dtb", b"d/o\n", b"c/a\nZ\x1b", b"i\x16\x1bx\x1b", b"ia\x08b\x1b", b"i12\x17 3\x1b", b"d0", b"dG", b"dj", b"dk", b"d%", b"cl\x1b", b"r\n"]
+           b"Cend\x1b", b"\"add", b"\"ayw", b"\"ap", b"\"Add", b"yw", b"yy", b"Y", b"g~w", b"gUw", b"guu"[:2] + b"w", b"dfo", b"dtb", b"d/o\n", b"c/a\nZ\x1b", b"i\x16\x1bx\x1b", b"ia\x08b\x1b", b"i12\x17 3\x1b", b"d0", b"dG", b"dj", b"dk", b"d%", b"cl\x1b", b"r\n",
+           # a NUL key inside the recorded change (a no-op while typing; the record must keep what follows it)
+           b"ia\x00b\x1b", b"A\x00z\x1b", b"cwq\x00r\x1b", b"ox\x00\x00y\x1b"]
 
 def repeat_cases(rng, n):
     """pairs (A, B): A uses '.' / 'N.' / '@r', B retypes the keys; both end with the same tail (C09)"""
@@ -436,6 +438,13 @@ def screen_cases(rng, n, maxcmds=9):
         rows, cols = geometry(rng)
         if rng.below(3) == 0: rows = 4 + rng.below(6)
         parts = []
+        if i % 10 == 8:
+            # yanks that move the cursor (backward motions): the cursor cell and the column used by j / k must follow
+            f = b"alpha beta gamma delta\n0123456789abcdefghij\nshort\n" + b"x" * 100 + b" end of a long line\nlast\n"
+            parts = [rng.pick([b"", b"j", b"3j", b"G"]), rng.pick([b"$", b"$", b"10l", b"w", b"2w", b"$h"]), rng.pick([b"", b"ma0", b""]),
+                     rng.pick([b"y", b"\"ay", b"2y"]) + rng.pick([b"b", b"B", b"h", b"0", b"^", b"Fa", b"Ta", b"3h", b"k", b"-", b"`a", b"?a\n", b"w", b"$"]),
+                     rng.pick([b"", b"j", b"k", b"x", b"\x05", b"jx", b"p"])]
+            out.append(case(f, b"".join(parts), rows, cols, screen=1)); continue
         if i % 10 == 4:
             # a change whose motion goes back over line boundaries while the typed text brings new lines:
             # the rows are inserted while the replacement is being typed
